@@ -87,8 +87,8 @@ def normOf (tbl : List (Nat × Nat)) (r : Nat) : Nat :=
     two arguments are the published string list `E` for the `cover` verdicts and the normalisation table
     of the prefix strings.
 
-    `(c04 loopfacts <k> <pat>)` → `(ok (chain none | (loop <pred>) (lm (alt (lead none|(<pred> min)) (core (lit r…) |
-    (set <pred> lo hi)) (trail none|(<pred> min)))…)…) (lal none | (loop <pred>) (lit <pred>…)) (lalprefix none | (loop <pred>) (str r…)))`: what
+    `(c04 loopfacts <k> <pat> <k2>)` → `(ok (chain none | (loop <pred>) (lm (alt (lead none|(<pred> min)) (core (lit r…) |
+    (set <pred> lo hi)) (trail none|(<pred> min)))…)…) (lal none | (loop <pred>) (lit <pred>…)) (lalprefix none | (loop <pred>) (str r…)) (look none | <the same three entries for the body of `leadLook pat`, whose top concatenation has `k2` children>))`: what
     `LoopFacts.chainOf k` / `lalOf k` prove about every left-to-right match of the pattern whose top
     concatenation has `k` children (leg L validates the published `LandmarkChain` / `LiteralAfterLoop` against it) -/
 def handleC04 (args : List Sexp) : String :=
@@ -118,14 +118,19 @@ def handleC04 (args : List Sexp) : String :=
           | none => mk "look" [.atom "none"]
         toString (Sexp.list ([.atom "ok"] ++ setsOf norm p ks maxLen maxCount E ++ [look]))
     | _, _, _, _, _, _, _ => "(bad-op)"
-  | [.atom "loopfacts", k, p] =>
-    match k.nat?, pat? p with
-    | some k, some p =>
-      let pre : Sexp := match lalPrefixOf p with
-        | none => mk "lalprefix" [.atom "none"]
-        | some (P, w) => mk "lalprefix" [mk "loop" [predSexp P], mk "str" (w.map ofNat)]
-      toString (Sexp.list [.atom "ok", chainSexp (chainOf k p), lalSexp (lalOf k p), pre])
-    | _, _ => "(bad-op)"
+  | [.atom "loopfacts", k, p, k2] =>
+    match k.nat?, pat? p, k2.nat? with
+    | some k, some p, some k2 =>
+      let three (k : Nat) (q : Pat) : List Sexp :=
+        let pre : Sexp := match lalPrefixOf q with
+          | none => mk "lalprefix" [.atom "none"]
+          | some (P, w) => mk "lalprefix" [mk "loop" [predSexp P], mk "str" (w.map ofNat)]
+        [chainSexp (chainOf k q), lalSexp (lalOf k q), pre]
+      let look : Sexp := match (leadLook p).1 with
+        | some b => mk "look" (three k2 b)
+        | none => mk "look" [.atom "none"]
+      toString (Sexp.list (.atom "ok" :: three k p ++ [look]))
+    | _, _, _ => "(bad-op)"
   | _ => "(bad-op)"
 
 end RegexVerif.Driver
